@@ -1,7 +1,425 @@
 package keysim
 
-import "verifharness/sim"
+import (
+	"context"
+	"encoding/json"
+	"fmt"
+	"sort"
+	"strings"
+	"time"
 
-const ruleC06 = "todo"
+	gmsl "github.com/matrix-org/gomatrixserverlib"
+	"github.com/matrix-org/gomatrixserverlib/spec"
 
-func bodyC06(r *sim.Run) {}
+	"verifharness/sim"
+	"verifharness/world"
+)
+
+const ruleC06 = "one run = 5 servers with rotating key histories, 1-3 events (message / state / member with every membership, invites to remote users, joins carrying join_authorised_via_users_server) built with the real EventBuilder in a room version drawn from the whole registry (pseudo-ID version excluded), each required signer given a tape-chosen plan (current key, old key, absent, corrupted, wrong key, unknown key id, unsupported algorithm, plus extra valid/invalid signatures of required and unrelated servers), origin_server_ts placed around key expiry and the valid_until / 7-day boundaries, the clock advanced (with rotations) before verification by the real KeyRing+DirectKeyFetcher over honest key servers or by a ledger verifier; non-trivial = at least one required signer had a non-default plan or the clock/keys changed between signing and verification; distinct = distinct event-log hash"
+
+// independent tables (Matrix specification; unstable versions as registered)
+var strictFrom = map[gmsl.RoomVersion]bool{"1": false, "2": false, "3": false, "4": false}
+var restrictedJoins = map[gmsl.RoomVersion]bool{"8": true, "9": true, "10": true, "11": true, "12": true,
+	"org.matrix.msc3787": true, "org.matrix.hydra.11": true, "org.matrix.msc4014": true}
+var randomEventIDs = map[gmsl.RoomVersion]bool{"1": true, "2": true}
+
+func isStrict(v gmsl.RoomVersion) bool {
+	s, ok := strictFrom[v]
+	return !ok || s
+}
+
+type sigPlan struct {
+	server  *world.Server
+	keyID   gmsl.KeyID
+	priv    []byte // key actually used
+	signer  *world.Key
+	corrupt bool
+	kind    string
+}
+
+type evCase struct {
+	ev       gmsl.PDU
+	required []*world.Server
+	plans    map[spec.ServerName][]sigPlan
+	ts       time.Time
+	ver      gmsl.RoomVersion
+	desc     string
+}
+
+func bodyC06(r *sim.Run) {
+	t := r.T
+	s := sim.NewSched(r)
+	now := time.Now()
+	w := &kworld{r: r, s: s, led: world.NewLedger()}
+	validFors := []time.Duration{24 * time.Hour, time.Hour, 8 * 24 * time.Hour, 30 * 24 * time.Hour}
+	mk := func(n string) *world.Server {
+		sv := world.NewServer(t, n, now)
+		sv.ValidFor = sim.Pick(t, validFors)
+		w.origins = append(w.origins, w.led.Add(sv))
+		return sv
+	}
+	A, B, C, D, E := mk("a.example"), mk("b.example"), mk("c.example"), mk("d.example"), mk("e.example")
+	w.local = w.led.Add(world.NewServer(t, "local.example", now))
+	w.rogue = world.NewServer(t, "rogue.example", now)
+	w.db = &simDB{w: w, durable: map[pair]entry{}, volatile: map[pair]entry{}}
+	w.client = &simClient{w: w, handed: map[string][]*respRec{}}
+	// history: every server may have rotated once or twice before the events
+	time.Sleep(time.Duration(t.Range(1, 100)) * time.Hour)
+	for _, sv := range w.origins {
+		for i := t.Weighted([]int{3, 3, 1}); i > 0; i-- {
+			sv.Rotate(t, time.Now())
+			time.Sleep(time.Duration(t.Range(1, 30)) * time.Hour)
+		}
+	}
+	vers := []gmsl.RoomVersion{}
+	for _, v := range world.Versions() {
+		if v != gmsl.RoomVersionPseudoIDs {
+			vers = append(vers, v)
+		}
+	}
+	ver := sim.Pick(t, vers)
+	impl := gmsl.MustGetRoomVersion(ver)
+	nev := t.Range(1, 3)
+	var cases []*evCase
+	for i := 0; i < nev; i++ {
+		cases = append(cases, w.buildCase(impl, A, B, C, D, E))
+	}
+	// time passes before verification; keys may rotate meanwhile
+	if t.Chance(600) {
+		d := time.Duration(sim.Pick(t, []int{1, 3600, 86400, 3 * 86400, 7 * 86400, 8 * 86400, 40 * 86400})) * time.Second
+		time.Sleep(d)
+		r.Fault("clock_jump")
+		r.Nontriv = true
+		r.Logf("t=%v advanced %v before verification", r.Now(), d)
+		for _, sv := range w.origins {
+			if t.Chance(250) {
+				sv.Rotate(t, time.Now().Add(-time.Duration(t.Range(0, int(d/time.Second)))*time.Second))
+				r.Fault("key_rotate")
+				r.Logf("  %s rotated during the gap", sv.Name)
+			}
+		}
+	}
+	useRing := t.Chance(650)
+	var verifier gmsl.JSONVerifier
+	if useRing {
+		verifier = &gmsl.KeyRing{KeyDatabase: w.db, KeyFetchers: []gmsl.KeyFetcher{&gmsl.DirectKeyFetcher{
+			Client:            w.client,
+			IsLocalServerName: func(n spec.ServerName) bool { return n == w.local.Name },
+			LocalPublicKey:    spec.Base64Bytes(w.local.Keys[0].Pub),
+		}}}
+		r.Probe("verifier_real_keyring")
+	} else {
+		verifier = &world.Verifier{L: w.led}
+		r.Probe("verifier_ledger")
+	}
+	uid := func(roomID spec.RoomID, sender spec.SenderID) (*spec.UserID, error) {
+		return spec.NewUserID(string(sender), true)
+	}
+	s.Go("verifier", func() {
+		ctx := sim.WithTask(context.Background(), "verifier")
+		t1 := time.Now()
+		var evs []gmsl.PDU
+		for _, c := range cases {
+			evs = append(evs, c.ev)
+		}
+		var errs []error
+		if len(evs) > 1 && t.Bool() {
+			errs = gmsl.VerifyAllEventSignatures(ctx, evs, verifier, uid)
+			r.Check(len(errs) == len(evs), "C06", "shape", "verify_all_len", "VerifyAllEventSignatures returned %d results for %d events", len(errs), len(evs))
+		} else {
+			for _, ev := range evs {
+				errs = append(errs, gmsl.VerifyEventSignatures(ctx, ev, verifier, uid))
+			}
+		}
+		for i, c := range cases {
+			r.Op()
+			want, why := w.expect(c, t1, useRing)
+			got := errs[i] == nil
+			r.Logf("t=%v verify #%d %s -> %v (expected ok=%v: %s)", r.Now(), i, c.desc, errs[i], want, why)
+			if got && !want {
+				r.Violate("C06", "soundness", whyTag(why), "event %s verified although %s", c.desc, why)
+			}
+			if !got && want {
+				r.Violate("C06", "completeness", "all_required_valid", "event %s refused (%v) although every required server validly signed it", c.desc, errs[i])
+			}
+		}
+	})
+	s.RunAll()
+}
+
+func whyTag(why string) string {
+	if i := strings.Index(why, ":"); i > 0 {
+		return why[:i]
+	}
+	return why
+}
+
+func (w *kworld) buildCase(impl gmsl.IRoomVersion, A, B, C, D, E *world.Server) *evCase {
+	r, t := w.r, w.r.T
+	ver := impl.Version()
+	c := &evCase{ver: ver, plans: map[spec.ServerName][]sigPlan{}}
+	sender := "@u:" + string(A.Name)
+	origin := A
+	if randomEventIDs[ver] && t.Bool() {
+		origin = E // the event ID names another server than the sender's
+		r.Probe("v1_event_id_names_other_server")
+	}
+	p := world.Proto{RoomID: world.FakeRoomID(t, impl, A.Name), Sender: sender, Depth: int64(t.Range(1, 50)),
+		Prev: []string{world.FakeEventID(t, impl, A.Name)}, Auth: []string{world.FakeEventID(t, impl, A.Name)}}
+	req := map[spec.ServerName]*world.Server{A.Name: A}
+	if randomEventIDs[ver] {
+		req[origin.Name] = origin
+	}
+	kind := t.Weighted([]int{2, 1, 2, 3, 3, 1, 1, 1})
+	switch kind {
+	case 0:
+		p.Type, p.Content = "m.room.message", map[string]any{"body": "hi", "msgtype": "m.text"}
+		c.desc = "message"
+	case 1:
+		p.Type, p.StateKey, p.Content = "m.room.topic", world.Str(""), map[string]any{"topic": "x"}
+		c.desc = "topic"
+	case 2: // plain join
+		p.Type, p.StateKey, p.Content = spec.MRoomMember, world.Str(sender), map[string]any{"membership": "join"}
+		c.desc = "join"
+	case 3: // invite
+		target := B
+		if t.Chance(200) {
+			target = A
+		}
+		p.Type, p.StateKey, p.Content = spec.MRoomMember, world.Str("@t:"+string(target.Name)), map[string]any{"membership": "invite"}
+		req[target.Name] = target
+		c.desc = "invite of @t:" + string(target.Name)
+	case 4: // join carrying join_authorised_via_users_server
+		auth := C
+		if t.Chance(150) {
+			auth = A
+		}
+		p.Type, p.StateKey = spec.MRoomMember, world.Str(sender)
+		p.Content = map[string]any{"membership": "join", "join_authorised_via_users_server": "@w:" + string(auth.Name)}
+		if restrictedJoins[ver] {
+			req[auth.Name] = auth
+		} else {
+			r.Probe("authorised_via_in_version_without_restricted_joins")
+		}
+		c.desc = "restricted join via @w:" + string(auth.Name)
+	case 5:
+		p.Type, p.StateKey, p.Content = spec.MRoomMember, world.Str("@t:"+string(B.Name)), map[string]any{"membership": "ban"}
+		c.desc = "ban of remote user"
+	case 6:
+		p.Type, p.StateKey, p.Content = spec.MRoomMember, world.Str(sender), map[string]any{"membership": sim.Pick(t, []string{"leave", "knock"})}
+		c.desc = "leave/knock"
+	case 7: // a leave carrying join_authorised_via_users_server: not a join, so not required
+		p.Type, p.StateKey = spec.MRoomMember, world.Str(sender)
+		p.Content = map[string]any{"membership": "leave", "join_authorised_via_users_server": "@w:" + string(C.Name)}
+		c.desc = "leave with authorised_via"
+	}
+	c.desc = fmt.Sprintf("%s (v%s)", c.desc, ver)
+	// timestamp: around a boundary of one of the required servers' keys
+	names := make([]string, 0, len(req))
+	for n := range req {
+		names = append(names, string(n))
+	}
+	sort.Strings(names)
+	for _, n := range names {
+		c.required = append(c.required, req[spec.ServerName(n)])
+	}
+	now := time.Now()
+	focus := sim.Pick(t, c.required)
+	fk := sim.Pick(t, focus.Keys)
+	week := 7 * 24 * time.Hour
+	switch t.Intn(7) {
+	case 0:
+		c.ts = now
+	case 1:
+		if fk.Current() {
+			c.ts = now
+		} else {
+			c.ts = fk.ExpiredAt
+		}
+	case 2:
+		c.ts = now.Add(focus.ValidFor)
+	case 3:
+		c.ts = now.Add(week)
+	case 4:
+		c.ts = now.Add(-time.Duration(t.Range(1, 200)) * time.Hour)
+	case 5:
+		c.ts = fk.From
+	default:
+		c.ts = now.Add(time.Duration(t.Range(-50, 250)) * time.Hour)
+	}
+	c.ts = c.ts.Add(time.Duration(t.Range(-1, 1)) * time.Millisecond)
+	if c.ts.Before(time.Unix(1, 0)) {
+		c.ts = time.Unix(1, 0)
+	}
+	// the origin's signature is made by Build; its plan decides the key
+	plan := func(sv *world.Server) sigPlan {
+		k := sv.Current()
+		pl := sigPlan{server: sv, keyID: k.ID, priv: k.Priv, signer: k, kind: "current"}
+		switch t.Weighted([]int{8, 3, 2, 2, 2, 1, 1}) {
+		case 1:
+			k = sim.Pick(t, sv.Keys)
+			pl = sigPlan{server: sv, keyID: k.ID, priv: k.Priv, signer: k, kind: "generation:" + string(k.ID)}
+		case 2:
+			pl.kind = "absent"
+		case 3:
+			pl.corrupt, pl.kind = true, "corrupt"
+		case 4: // made with somebody else's key under this server's name and key id
+			pl.priv, pl.signer, pl.kind = D.Current().Priv, D.Current(), "wrong_key"
+		case 5:
+			pl.keyID, pl.kind = "ed25519:never_published", "unknown_key_id"
+		case 6:
+			pl.keyID, pl.kind = "rsa:1", "unsupported_algorithm"
+		}
+		if pl.kind != "current" {
+			r.Fault("sig_" + strings.SplitN(pl.kind, ":", 2)[0])
+			r.Nontriv = true
+		}
+		return pl
+	}
+	op := plan(origin)
+	buildKey := &world.Key{ID: op.keyID, Priv: op.priv}
+	ev, err := world.Build(impl, p, c.ts, origin.Name, buildKey)
+	if err != nil {
+		r.Violate("C06", "build", "error", "EventBuilder.Build failed for %s: %v", c.desc, err)
+	}
+	c.plans[origin.Name] = append(c.plans[origin.Name], op)
+	for _, sv := range c.required {
+		if sv == origin {
+			continue
+		}
+		pl := plan(sv)
+		c.plans[sv.Name] = append(c.plans[sv.Name], pl)
+		if pl.kind != "absent" {
+			ev = ev.Sign(string(sv.Name), pl.keyID, pl.priv)
+		}
+	}
+	// second signatures of required servers, and unrelated servers
+	for _, sv := range c.required {
+		if t.Chance(200) {
+			pl := plan(sv)
+			if pl.kind != "absent" && !hasKeyID(c.plans[sv.Name], pl.keyID) {
+				c.plans[sv.Name] = append(c.plans[sv.Name], pl)
+				ev = ev.Sign(string(sv.Name), pl.keyID, pl.priv)
+				r.Probe("second_signature_of_required_server")
+			}
+		}
+	}
+	if _, isReq := req[D.Name]; !isReq && t.Chance(300) {
+		ev = ev.Sign(string(D.Name), D.Current().ID, sim.Pick(t, [][]byte{D.Current().Priv, A.Current().Priv}))
+		r.Probe("unrelated_signature")
+	}
+	// apply absent / corrupt to the JSON
+	var obj map[string]json.RawMessage
+	json.Unmarshal(ev.JSON(), &obj)
+	var sigs map[string]map[string]string
+	json.Unmarshal(obj["signatures"], &sigs)
+	for _, n := range sortedNames(c.plans) {
+		for _, pl := range c.plans[spec.ServerName(n)] {
+			switch {
+			case pl.kind == "absent":
+				if len(c.plans[spec.ServerName(n)]) == 1 {
+					delete(sigs, n)
+				} else {
+					delete(sigs[n], string(pl.keyID))
+				}
+			case pl.corrupt:
+				var b spec.Base64Bytes
+				b.Decode(sigs[n][string(pl.keyID)])
+				b[t.Intn(len(b))] ^= 1 << uint(t.Intn(8))
+				sigs[n][string(pl.keyID)] = b.Encode()
+			}
+		}
+	}
+	obj["signatures"], _ = json.Marshal(sigs)
+	raw, _ := json.Marshal(obj)
+	ev2, err := impl.NewEventFromTrustedJSON(raw, false)
+	if err != nil {
+		r.Violate("C06", "build", "reparse", "re-parse of signed event failed: %v", err)
+	}
+	c.ev = ev2
+	var ps []string
+	for _, n := range sortedNames(c.plans) {
+		for _, pl := range c.plans[spec.ServerName(n)] {
+			ps = append(ps, n+"="+pl.kind)
+		}
+	}
+	c.desc += fmt.Sprintf(" ts=%d signers[%s]", spec.AsTimestamp(c.ts), strings.Join(ps, " "))
+	r.Logf("t=%v built %s", r.Now(), c.desc)
+	return c
+}
+
+func hasKeyID(ps []sigPlan, id gmsl.KeyID) bool {
+	for _, p := range ps {
+		if p.keyID == id {
+			return true
+		}
+	}
+	return false
+}
+
+func sortedNames(m map[spec.ServerName][]sigPlan) []string {
+	var ns []string
+	for n := range m {
+		ns = append(ns, string(n))
+	}
+	sort.Strings(ns)
+	return ns
+}
+
+// expect computes, from the ledger alone, whether every required server has
+// at least one valid signature, and if not, why.
+func (w *kworld) expect(c *evCase, t1 time.Time, ring bool) (bool, string) {
+	ts := spec.AsTimestamp(c.ts)
+	for _, sv := range c.required {
+		ok := false
+		why := "absent"
+		for _, pl := range c.plans[sv.Name] {
+			switch {
+			case pl.kind == "absent":
+				continue
+			case pl.corrupt:
+				why = "corrupt"
+				continue
+			case !strings.HasPrefix(string(pl.keyID), "ed25519:"):
+				why = "unsupported_algorithm"
+				continue
+			}
+			k := sv.KeyByID(pl.keyID)
+			if k == nil {
+				why = "unknown_key_id"
+				continue
+			}
+			if pl.signer != k {
+				why = "wrong_key"
+				continue
+			}
+			expired := !k.Current() && !k.ExpiredAt.After(t1)
+			switch {
+			case expired:
+				if ts < spec.AsTimestamp(k.ExpiredAt) {
+					ok = true
+				} else {
+					why = "key_expired_before_event"
+				}
+			case !ring || !isStrict(c.ver):
+				// the ledger verifier, and lenient room versions, do not
+				// consult valid_until_ts of a current key
+				ok = true
+			default:
+				limit := spec.AsTimestamp(t1.Add(sv.ValidFor))
+				if c7 := spec.AsTimestamp(t1.Add(7 * 24 * time.Hour)); c7 < limit {
+					limit = c7
+				}
+				if ts <= limit {
+					ok = true
+				} else {
+					why = "beyond_valid_until"
+				}
+			}
+		}
+		if !ok {
+			return false, fmt.Sprintf("%s: required server %s has no valid signature", why, sv.Name)
+		}
+	}
+	return true, "all required signers valid"
+}
